@@ -69,6 +69,26 @@ func genC14(r *Rng, tier string) []Case {
 		}
 	}
 	pool := valuePool()
+	// grid: every lookup form x key type (any / string / int / composite) x raw value, FieldValue,
+	// FieldValue of FieldValue x (the value the second registered definition stores | a value nobody
+	// stores); two definitions carry the key, the default is a third one
+	for _, ki := range []int{19, 0, 2, 24} {
+		vs := valuesFor(keyPool[ki], pool)
+		if len(vs) < 3 {
+			continue
+		}
+		for _, op := range []string{"field", "fieldD", "func", "funcD"} {
+			for wrap := 0; wrap <= 2; wrap++ {
+				for _, want := range []int{vs[1], vs[2]} {
+					out = append(out, runC14(c14Desc{
+						Pool: []c14Def{{Kind: "k1", Fields: []c14Field{{ki, vs[0]}}}, {Kind: "k2", Fields: []c14Field{{ki, vs[1]}}}, {Kind: "dflt"}},
+						Reg:  []int{0, 1}, Default: 2,
+						Lookup: c14Lookup{Op: op, Key: ki, Want: want, Wrap: wrap, Pred: "true"},
+					}))
+				}
+			}
+		}
+	}
 	for i := 0; i < n; i++ {
 		size := 1 + i*6/n // grows with the index
 		np := 1 + r.Intn(size+1)
